@@ -170,6 +170,29 @@ fn find_stmt(body: &[Stmt], target: &Stmt, n: &mut usize, out: &mut Vec<usize>) 
     }
 }
 
+/// The injected duplicate: a statement equal to `target` that follows another definition of the same name in its own
+/// block (an equally named symbol of another scope is not it).
+fn find_redefinition(body: &[Stmt], target: &Stmt, n: &mut usize, out: &mut Vec<usize>) {
+    let name_of = |s: &Stmt| match s {
+        Stmt::Label { name, .. } | Stmt::Const { name, .. } | Stmt::Var { name, .. } => Some(name.clone()),
+        _ => None,
+    };
+    let tname = name_of(target);
+    let mut seen = false;
+    for s in body {
+        if s == target && seen {
+            out.push(*n);
+        }
+        if tname.is_some() && name_of(s) == tname {
+            seen = true;
+        }
+        *n += 1;
+        for c in s.children() {
+            find_redefinition(c, target, n, out);
+        }
+    }
+}
+
 pub fn inject(c: &Case) -> Option<Injected> {
     let mut g = GenCfg::full();
     g.max_stmts = 30;
@@ -355,8 +378,12 @@ pub fn inject(c: &Case) -> Option<Injected> {
         let s = fault_stmt.as_ref().unwrap();
         let mut found = vec![];
         let mut n = 0;
-        find_stmt(prog.main(), s, &mut n, &mut found);
-        let idx = if class == Class::Redefinition { *found.last()? } else { *found.first()? };
+        if class == Class::Redefinition {
+            find_redefinition(prog.main(), s, &mut n, &mut found);
+        } else {
+            find_stmt(prog.main(), s, &mut n, &mut found);
+        }
+        let idx = *found.first()?;
         let (a, bnd) = r.stmt_span(idx)?;
         fault_text = text[a..bnd].chars().take(60).collect();
         match &locate_text {
